@@ -22,9 +22,12 @@ PROPS["C12"] = {
     "level_note": "partial: F9a (a reopen retry loop spanning a rebalance close kills the client) is a known finding outside the generated histories; trusted: Lean kernel, Model/Life.lean, L1 harness",
 }
 PROPS["C13"] = {
-    "streams": ["life-shut", "life-trail", "c07gate"],
+    "streams": ["life-shut", "life-trail", "c07gate", "sess-save"],
     # of the rollback-mitigation gate stream only the scripts that close the stream matter here: waiting events are released WITHOUT delivery
-    "op_filter": {"c07gate": r" c( |$)"}, "clauses": ["C13", "C07.not-released", "C07.unsafe-delivery"], "audit": ["C13.lean", "C13Run.lean"], "modules": ["GoDcp.Props.C13", "GoDcp.Props.C13Run"], "retry_divergence": 2, "timeout": 900,
+    # of the save-protocol stream only the steps where a second save runs into an in-flight one (the shape of dcp.close()'s final save
+    # arriving while a periodic save is slow): it must wait and then save
+    "op_filter": {"c07gate": r" c( |$)", "sess-save": r"^sv \d+ lockwait"},
+    "clauses": ["C13", "C07.not-released", "C07.unsafe-delivery", "C05.concurrent-save-dropped"], "audit": ["C13.lean", "C13Run.lean"], "modules": ["GoDcp.Props.C13", "GoDcp.Props.C13Run"], "retry_divergence": 2, "timeout": 900,
     "rule": _LIFE_RULE, "assumptions": _LIFE_ASSUME + ["Close() = the stream-level part of dcp.close (Save when checkpoint.type=auto, then stream.Close); bounded time is measured by the harness, not proved"],
     "design_ref": "DESIGN.md §7 C13, §6 F4 F6",
     "level_text": "Kernel-checked on the validated life-cycle model: stream.Close crashes exactly when the observers map is nil (doClose_none_iff), otherwise it closes every vBucket stream, closes the observers (no later delivery, later ends ignored) and emits no fail-stop (doClose_clean); the full statement is refuted inside the rebalance window (close_terminates_full_refuted = finding F4). Tied to the real code by shutdowns injected after open, mid-history and at every step of a rebalance.",
